@@ -105,7 +105,7 @@ TEXTS["C20"] = {
     "technique": "Coq proof (refinement of the ring by a fixed-length queue, list decomposition) + differential correspondence check + text-derived monitors",
 }
 
-STD_NOTE = "Trusted: Coq kernel, hand-written models (tied to /repo by differential runs, not proved equal to the Go code), extraction (ExtrOcamlBasic; re-checked on every run by evaluating a sample of the histories with vm_compute inside Coq), OCaml driver, Go harness and monitors. No axioms (Closed under the global context; coqchk in the thorough tier)."
+STD_NOTE = "Trusted: Coq kernel, hand-written models (tied to /repo by differential runs, not proved equal to the Go code), extraction (ExtrOcamlBasic; re-checked on every run by evaluating a sample of the histories with vm_compute inside Coq), OCaml driver, Go harness and monitors. No axioms (Closed under the global context; coqchk in the thorough tier). Populations beyond about a thousand entries, values beyond 64 KiB and the concurrent extras are validated against the monitors only (the model is not run at that scale); the evidence counts them separately."
 TEXTS["C15"] = {"text": "Machine-checked proof (Coq) that the transcribed models of capacityLRU and of the hashicorp LRU behind simpleLRUCacheAdapter, wrapped by lruCache, refine a short reference LRU over every history of Put/HasOrAdd/Get/Peek/Has/Remove/Clear/(Un)RegisterHandler, every capacity >= 1, byte capacity >= 1 and every size (negative rejected): all return values, Keys order (LRU->MRU), Len, Peek, Has; invariants (unique keys, Len <= capacity, byte counter = sum of resident sizes, bytes <= capacity or single resident, eviction loop terminates); Put flag true iff a resident left; HasOrAdd flags; only least recently used entries leave and the written entry stays most recent; handler set = what the history registered and exactly one invocation per registered handler per insertion. Models tied to the Go code by differential runs (exhaustive small scope + random) on all observables incl. the multiset of handler invocations; monitors compare the implementation with a Go reference LRU written from the property text.",
   "note": STD_NOTE + " SizeInBytesContained claimed for the sized variant only. int64 sums assumed < 2^63.",
   "technique": "Coq refinement proof over executable Gallina models + differential correspondence check + reference-LRU monitors"}
